@@ -369,6 +369,11 @@ func c01Pipeline(c *core.Ctx) {
 		return
 	}
 	c.Logf("pipeline model checked: %d distinct states", r.Distinct)
+	if !c.Quick() {
+		if !c.CoverageGuard("mc_pipeline_action_coverage", core.TLCOpts{Module: "MC_Pipeline", CfgText: "SPECIFICATION MCSpec\nCONSTANTS MaxKids = 2\n MaxDepth = 7\nINVARIANTS TypeOK WellNested\nCHECK_DEADLOCK TRUE\n", Workers: 8, Timeout: 30 * time.Minute, Name: "mc-pipeline-cov"}) {
+			return
+		}
+	}
 	c.Set("mc_pipeline", map[string]interface{}{"distinct": r.Distinct, "generated": r.Generated, "max_depth": depth, "max_kids": 2})
 
 	// ---- own loads: fixtures x switch sets (+ model loads)
